@@ -212,3 +212,194 @@ Example alloc_error_example :
   let M := scripted cfg [ {| n_anch := false; n_bytes := [97]%N; n_real := true |} ] true 1%N in
   read_by_line_run cfg M (fun _ => Continue) (AError 0) 1 [97; 10]%N [] = RunErr [EBegin].
 Proof. vm_compute. reflexivity. Qed.
+
+(* ---------------------------------------------------------------------------------------------
+   One Searcher, many searches: no state leaks from one search into the next
+   (Model/SearcherGlue.v: Searcher::{search_slice, search_reader, search_file_maybe_path},
+   LineBufferReader::new / LineBuffer::clear, fill_multi_line_buffer_from_{reader,file}) *)
+From RG Require Import Model.SearcherGlue Proofs.SearcherGlueProofs.
+
+(* 9. ReadByLine::run from the buffer of a fresh Searcher is the model of items 4-8 *)
+Theorem read_by_line_run_is_from_new :
+  forall cfg M reply_of pol cap stream hist,
+    fst (read_by_line_run_from cfg M reply_of pol (lb_new cap) stream hist)
+    = read_by_line_run cfg M reply_of pol cap stream hist.
+Proof. exact read_by_line_run_from_new. Qed.
+Print Assumptions read_by_line_run_is_from_new.
+
+(* 10. item 4 from ANY empty roll buffer — data = [], pos = last_lineterm = absolute_byte_offset = 0,
+       whatever capacity earlier searches grew it to (what LineBuffer::clear leaves: lb_clear_is_empty) *)
+Theorem reader_from_eq_ref :
+  forall (cfg : config) (M : matcher), c_binary cfg = BNone -> (forall buf, find_spec cfg M buf) ->
+  forall (lb0 : linebuf) (stream : bytes) (hist : list read_step), lb_empty lb0 -> chunks hist ->
+  let gf := g_run cfg (m_is_match M) (split_lines (lt_byte (c_lt cfg)) stream) in
+  exists n, fst (read_by_line_run_from cfg M (fun _ => Continue) AEager lb0 stream hist)
+            = RunOk (EBegin :: rev (g_out gf) ++ [EFinish n None]) /\
+            (g_stopped gf = false -> n = length stream) /\ n <= g_off gf.
+Proof.
+  intros cfg M Hbin Hfind lb0 stream hist He Hh gf.
+  destruct (reader_from_run_proof cfg M Hbin (fun b _ => Hfind b) AEager lb0 stream hist He Hh)
+    as [H|((limit & Hl) & _)]; [exact H|discriminate].
+Qed.
+Print Assumptions reader_from_eq_ref.
+
+Theorem lb_clear_is_empty : forall lb, lb_empty (lb_clear lb).
+Proof. exact lb_clear_empty. Qed.
+Print Assumptions lb_clear_is_empty.
+
+(* 11. whatever state earlier searches left the Searcher in (any line buffer, any multi-line buffer
+       contents), a search delivers the same events (res_sim: equal, or equal up to the byte count
+       of `finish`), and the very same result when stop-on-nonmatch does not cut it short.  Every
+       source kind, every strategy (slice, roll buffer, multi-line), with or without transcoding,
+       configuration error included.  [searched src] = the bytes the strategy runs on. *)
+Theorem search_state_independent :
+  forall (cfg : config) (M : matcher), c_binary cfg = BNone -> (forall buf, find_spec cfg M buf) ->
+  forall (enc_set bom_sniffing : bool) (decode : bytes -> bytes) (st1 st2 : searcher_state) (src : source),
+    src_ok src ->
+    res_sim (fst (search cfg M enc_set bom_sniffing decode (fun _ => Continue) st1 src))
+            (fst (search cfg M enc_set bom_sniffing decode (fun _ => Continue) st2 src)) /\
+    (g_stopped (g_run cfg (m_is_match M)
+                  (split_lines (lt_byte (c_lt cfg)) (searched enc_set bom_sniffing decode src))) = false ->
+     fst (search cfg M enc_set bom_sniffing decode (fun _ => Continue) st1 src)
+     = fst (search cfg M enc_set bom_sniffing decode (fun _ => Continue) st2 src)).
+Proof. exact search_state_independent_proof. Qed.
+Print Assumptions search_state_independent.
+
+(* 12. hence for a whole walk: one Searcher (built with any capacity, started in any state) searching
+       a list of sources one after the other returns, for each, what a FRESH Searcher returns —
+       the same events, and the same results when stop-on-nonmatch is off.  (The byte count after an
+       early stop, finding D8, is the only history-dependent observable: it depends on the capacity
+       the roll buffer was grown to by earlier searches; witness below.) *)
+Theorem search_history_independent :
+  forall (cfg : config) (M : matcher), c_binary cfg = BNone -> (forall buf, find_spec cfg M buf) ->
+  forall (enc_set bom_sniffing : bool) (decode : bytes -> bytes) (cap : nat)
+         (srcs : list source) (st : searcher_state),
+    Forall src_ok srcs ->
+    let results := fst (search_seq cfg M enc_set bom_sniffing decode st
+                                   (map (fun src => (src, fun _ : nat => Continue)) srcs)) in
+    let fresh := map (fun src => fst (search cfg M enc_set bom_sniffing decode (fun _ => Continue) (ss_new cap) src)) srcs in
+    Forall2 res_sim results fresh /\ (c_stop_on_nonmatch cfg = false -> results = fresh).
+Proof. exact search_history_independent_proof. Qed.
+Print Assumptions search_history_independent.
+
+Theorem search_reachable_independent :
+  forall (cfg : config) (M : matcher), c_binary cfg = BNone -> (forall buf, find_spec cfg M buf) ->
+  forall (enc_set bom_sniffing : bool) (decode : bytes -> bytes) (cap : nat) (st : searcher_state) (src : source),
+    reachable cfg M enc_set bom_sniffing decode cap st -> src_ok src ->
+    res_sim (fst (search cfg M enc_set bom_sniffing decode (fun _ => Continue) st src))
+            (fst (search cfg M enc_set bom_sniffing decode (fun _ => Continue) (ss_new cap) src)) /\
+    (g_stopped (g_run cfg (m_is_match M)
+                  (split_lines (lt_byte (c_lt cfg)) (searched enc_set bom_sniffing decode src))) = false ->
+     fst (search cfg M enc_set bom_sniffing decode (fun _ => Continue) st src)
+     = fst (search cfg M enc_set bom_sniffing decode (fun _ => Continue) (ss_new cap) src)).
+Proof. exact search_reachable_independent_proof. Qed.
+Print Assumptions search_reachable_independent.
+
+(* 13. one input, any way of reaching the Searcher — search_slice, search_reader (any read history),
+       search_file with or without a memory map — any Searcher states: the same events, the same
+       result when not cut short; provided the configuration check passes (the multi-line branch of
+       search_file does not run it: witness below) and the transcoder is the identity on inputs
+       that search_slice searches untranscoded. *)
+Theorem strategy_independent_events :
+  forall (cfg : config) (M : matcher), c_binary cfg = BNone -> (forall buf, find_spec cfg M buf) ->
+  forall (enc_set bom_sniffing : bool) (decode : bytes -> bytes) (st1 st2 : searcher_state) (src1 src2 : source),
+    src_input src1 = src_input src2 -> src_ok src1 -> src_ok src2 -> check_config cfg M = true ->
+    (needs_transcoding enc_set bom_sniffing (src_input src1) = false -> decode (src_input src1) = src_input src1) ->
+    res_sim (fst (search cfg M enc_set bom_sniffing decode (fun _ => Continue) st1 src1))
+            (fst (search cfg M enc_set bom_sniffing decode (fun _ => Continue) st2 src2)) /\
+    (g_stopped (g_run cfg (m_is_match M) (split_lines (lt_byte (c_lt cfg)) (decode (src_input src1)))) = false ->
+     fst (search cfg M enc_set bom_sniffing decode (fun _ => Continue) st1 src1)
+     = fst (search cfg M enc_set bom_sniffing decode (fun _ => Continue) st2 src2)).
+Proof. exact strategy_independent_events_proof. Qed.
+Print Assumptions strategy_independent_events.
+
+(* non-vacuity: a two-file walk with one Searcher of capacity 1.  The first file has a long line:
+   the roll buffer grows (capacity 1 -> 27) and stays grown; the second file is then searched by
+   the reader, by the file entry point with 1-byte reads, and as a slice: the same events each
+   time.  With stop-on-nonmatch the byte counts are 0 (reused, grown buffer), 2 and 4 — a fresh
+   Searcher reports 2 for the second search: finding D8 is history-dependent. *)
+Example reused_searcher_example :
+  let cfg := {| c_lt := LTByte 10; c_invert := false; c_after := 0; c_before := 0; c_passthru := false;
+                c_line_number := true; c_stop_on_nonmatch := true; c_binary := BNone; c_multi_line := false |} in
+  let M := scripted cfg [ {| n_anch := false; n_bytes := [97]%N; n_real := true |} ] true 1%N in
+  let K := fun _ : nat => Continue in
+  let f1 := [120; 120; 120; 120; 120; 120; 120; 120; 120; 120; 10; 97; 10]%N in
+  let f2 := [97; 10; 98; 10; 99; 10]%N in
+  fst (search_seq cfg M false false (fun b => b) (ss_new 1)
+         [(SrcReader f1 [], K); (SrcReader f2 [], K); (SrcFile false f2 (repeat (RChunk 1) 6), K); (SrcSlice f2, K)])
+  = [RunOk [EBegin; EMatched 11 (Some 2) [97; 10]%N; EFinish 13 None];
+     RunOk [EBegin; EMatched 0 (Some 1) [97; 10]%N; EFinish 0 None];
+     RunOk [EBegin; EMatched 0 (Some 1) [97; 10]%N; EFinish 2 None];
+     RunOk [EBegin; EMatched 0 (Some 1) [97; 10]%N; EFinish 4 None]]
+  /\ lb_cap (ss_lb (snd (search cfg M false false (fun b => b) K (ss_new 1) (SrcReader f1 [])))) = 27
+  /\ fst (search cfg M false false (fun b => b) K (ss_new 1) (SrcReader f2 []))
+     = RunOk [EBegin; EMatched 0 (Some 1) [97; 10]%N; EFinish 2 None].
+Proof. vm_compute. repeat split; reflexivity. Qed.
+
+(* the multi-line strategies: the multi-line buffer is refilled, not appended to *)
+Example reused_searcher_multi_line_example :
+  let cfg := {| c_lt := LTByte 10; c_invert := false; c_after := 0; c_before := 0; c_passthru := false;
+                c_line_number := true; c_stop_on_nonmatch := false; c_binary := BNone; c_multi_line := true |} in
+  let M := scripted cfg [ {| n_anch := false; n_bytes := [97; 10; 98]%N; n_real := true |} ] true 0%N in
+  let K := fun _ : nat => Continue in
+  let f1 := [120; 120; 120; 10; 97; 10]%N in
+  let f2 := [97; 10; 98; 10; 99; 10]%N in
+  let r2 := RunOk [EBegin; EMatched 0 (Some 1) [97; 10; 98; 10]%N; EFinish 6 None] in
+  multi_line_with_matcher cfg M = true
+  /\ fst (search_seq cfg M false false (fun b => b) (ss_new 1)
+            [(SrcReader f1 [], K); (SrcReader f2 [], K); (SrcFile false f2 [], K); (SrcFile true f2 [], K); (SrcSlice f2, K)])
+     = [RunOk [EBegin; EFinish 6 None]; r2; r2; r2; r2].
+Proof. vm_compute. split; reflexivity. Qed.
+
+(* the seeded defects, as refuted variants of LineBuffer::clear / the buffer refill *)
+Definition lb_clear_keeps_abs (lb : linebuf) : linebuf :=       (* absolute_byte_offset not reset *)
+  {| lb_data := []; lb_cap := lb_cap lb; lb_cap0 := lb_cap0 lb; lb_pos := 0; lb_llt := 0; lb_abs := lb_abs lb |}.
+Definition lb_clear_if_unconsumed (lb : linebuf) : linebuf :=   (* cleared only if bytes were left over *)
+  if Nat.ltb (lb_pos lb) (lb_llt lb) then lb_clear lb else lb.
+
+Example clear_variants_refuted :
+  let cfg := {| c_lt := LTByte 10; c_invert := false; c_after := 0; c_before := 0; c_passthru := false;
+                c_line_number := true; c_stop_on_nonmatch := false; c_binary := BNone; c_multi_line := false |} in
+  let M := scripted cfg [ {| n_anch := false; n_bytes := [97]%N; n_real := true |} ] true 1%N in
+  let K := fun _ : nat => Continue in
+  let f1 := [120; 120; 120; 10; 97; 10]%N in
+  let f2 := [97; 10; 98; 10]%N in
+  let lb1 := snd (read_by_line_run_from cfg M K AEager (lb_new 1) f1 []) in   (* after the first file *)
+  fst (read_by_line_run_from cfg M K AEager (lb_clear lb1) f2 [])
+    = RunOk [EBegin; EMatched 0 (Some 1) [97; 10]%N; EFinish 4 None]
+  /\ fst (read_by_line_run_from cfg M K AEager (lb_clear_keeps_abs lb1) f2 [])
+    = RunOk [EBegin; EMatched 0 (Some 1) [97; 10]%N; EFinish 10 None]           (* 6 bytes of file 1 counted again *)
+  /\ fst (read_by_line_run_from cfg M K AEager (lb_clear_if_unconsumed lb1) f2 [])
+    = RunOk [EBegin; EMatched 0 (Some 1) [97; 10]%N; EFinish 10 None].
+Proof. vm_compute. repeat split; reflexivity. Qed.
+
+Example multi_line_buffer_append_refuted :                       (* buf.clear() skipped: read_to_end appends *)
+  let cfg := {| c_lt := LTByte 10; c_invert := false; c_after := 0; c_before := 0; c_passthru := false;
+                c_line_number := true; c_stop_on_nonmatch := false; c_binary := BNone; c_multi_line := true |} in
+  let M := scripted cfg [ {| n_anch := false; n_bytes := [97; 10; 98]%N; n_real := true |} ] true 0%N in
+  let K := fun _ : nat => Continue in
+  let f1 := [120; 120; 120; 10; 97; 10]%N in
+  let f2 := [97; 10; 98; 10; 99; 10]%N in
+  multi_line_run cfg M K f2 = RunOk [EBegin; EMatched 0 (Some 1) [97; 10; 98; 10]%N; EFinish 6 None]
+  /\ multi_line_run cfg M K (f1 ++ f2)
+     = RunOk [EBegin; EMatched 6 (Some 3) [97; 10; 98; 10]%N; EFinish 12 None].   (* offsets, line numbers, count off *)
+Proof. vm_compute. split; reflexivity. Qed.
+
+(* finding (confirmed on the crate: search_path without memory map, multi_line(true), a matcher whose
+   line_terminator() differs from the Searcher's and whose pattern can match "\n"): the multi-line
+   branch of search_file_maybe_path does not call check_config — search_slice, search_reader and
+   the memory-mapped file return the configuration error, the heap-read file is searched *)
+Example config_check_skipped_by_multi_line_file :
+  let cfg := {| c_lt := LTByte 10; c_invert := false; c_after := 0; c_before := 0; c_passthru := false;
+                c_line_number := true; c_stop_on_nonmatch := false; c_binary := BNone; c_multi_line := true |} in
+  let M0 := scripted cfg [ {| n_anch := false; n_bytes := [97; 10; 98]%N; n_real := true |} ] true 0%N in
+  let M := {| m_is_match := m_is_match M0; m_find_candidate := m_find_candidate M0; m_line_term := Some (LTByte 13);
+              m_nonmatching := m_nonmatching M0; m_find_at := m_find_at M0 |} in
+  let K := fun _ : nat => Continue in
+  let f := [97; 10; 98; 10; 99; 10]%N in
+  check_config cfg M = false
+  /\ fst (search_seq cfg M false false (fun b => b) (ss_new 1)
+            [(SrcSlice f, K); (SrcReader f [], K); (SrcFile true f [], K); (SrcFile false f [], K)])
+     = [RunErr []; RunErr []; RunErr [];
+        RunOk [EBegin; EMatched 0 (Some 1) [97; 10; 98; 10]%N; EFinish 6 None]].
+Proof. vm_compute. split; reflexivity. Qed.
